@@ -121,12 +121,18 @@ def _modules_task(task, out):
     torch.manual_seed(0)
     for mk in ("linear", "conv"):
         for wname in WQ:
-            for pattern in ("all_zero", "zero_row", "zero_col"):
+            for pattern in ("all_zero", "zero_row", "zero_col", "const_wide"):
                 for frozen in (False, True):
                     c = [mk, wname, pattern, frozen]
                     if only and only != c:
                         continue
-                    if mk == "linear":
+                    if pattern == "const_wide" and mk != "linear":
+                        continue
+                    if pattern == "const_wide":
+                        # constant one-sided rows times one-sided inputs over many features: the un-scaled codes must not overflow
+                        m = torch.nn.Linear(256, 3, bias=True)
+                        x = torch.full((2, 256), 4.0, dtype=torch.float64).to(dt)
+                    elif mk == "linear":
                         m = torch.nn.Linear(16, 3, bias=True)
                         x = (torch.arange(2 * 16, dtype=torch.float64).reshape(2, 16) % 7 - 3).to(dt)
                     else:
@@ -134,7 +140,11 @@ def _modules_task(task, out):
                         x = (torch.arange(2 * 2 * 3 * 3, dtype=torch.float64).reshape(2, 2, 3, 3) % 5 - 2).to(dt)
                     with torch.no_grad():
                         w = ((torch.arange(m.weight.numel(), dtype=torch.float64).reshape(m.weight.shape) % 9) - 4) / 8
-                        if pattern == "all_zero":
+                        if pattern == "const_wide":
+                            w = torch.full(m.weight.shape, 0.5, dtype=torch.float64)
+                            w[1] = 0.01
+                            w[2] = -0.25
+                        elif pattern == "all_zero":
                             w.zero_()
                         elif pattern == "zero_row":
                             w[1].zero_()
